@@ -70,6 +70,7 @@ class ScriptedBackend:
         self.launches = collections.Counter()
         self.on_launch = on_launch
         self.log: List[tuple] = []
+        self.kinds: List[str] = []
         self.tasks: Dict[str, List[FakeTask]] = collections.defaultdict(list)
 
     def __call__(self, job, outputFile=None, errorFile=None, **kw):
@@ -80,6 +81,8 @@ class ScriptedBackend:
         reasons = self.script.get(ref, [])
         reason = reasons[n] if n < len(reasons) else "Success"
         self.log.append((ref, n, reason))
+        # a RepeatingEngine passes outputFile/errorFile for its periodic executions, not for a restart
+        self.kinds.append("repeat" if outputFile is not None else "plain")
         if self.on_launch is not None:
             self.on_launch(ref, job, n, reason)
         if reason == "SubmissionFailed":
@@ -159,6 +162,7 @@ class Result:
         self.aborted: Optional[str] = None
         self.stuck = False
         self.launch_log: List[tuple] = []
+        self.launch_kinds: List[str] = []
         self.decisions = 0
         self.kernel_errors: List[str] = []
         self.virtual_seconds = 0.0
@@ -166,7 +170,7 @@ class Result:
 
 class Driver:
     def __init__(self, exp, chooser, script, on_launch=None, max_decisions=4000, max_items=60000,
-                 stuck_after_idle_waits=80, do_restart_sources=None):
+                 stuck_after_idle_waits=80, do_restart_sources=None, on_component_run=None):
         self.exp = exp
         self.chooser = chooser
         self.script = script
@@ -184,6 +188,8 @@ class Driver:
         self.backend = ScriptedBackend(script, self._on_launch)
         self.do_restart_sources = do_restart_sources
         self._last_sig = None
+        self.on_component_run = on_component_run
+        self.run_called = collections.Counter()       # ComponentState.run() invocations per node
 
     # -- hooks ------------------------------------------------------------------------------------
     def _on_launch(self, ref, job, n, reason):
@@ -223,6 +229,16 @@ class Driver:
 
         K.new_case()
         res = Result()
+        drv = self
+        orig_cs_run = workflow.ComponentState.run
+
+        def observed_run(cs):
+            ref = cs.specification.reference
+            if drv.on_component_run is not None:
+                drv.on_component_run(drv, ref, cs)
+            drv.run_called[ref] += 1
+            return orig_cs_run(cs)
+        workflow.ComponentState.run = observed_run
         saved = dict(backends.backendGeneratorMap)
         for k in list(backends.backendGeneratorMap):
             backends.backendGeneratorMap[k] = self.backend
@@ -275,11 +291,13 @@ class Driver:
                     res.aborted = a.why
             res.states = {r: c.state for r, c in self.components.items()}
             res.launch_log = list(self.backend.log)
+            res.launch_kinds = list(self.backend.kinds)
             res.decisions = self.decisions
             res.kernel_errors = list(KERNEL.errors)
             res.virtual_seconds = (KERNEL.clock - K.EPOCH).total_seconds()
             return res
         finally:
+            workflow.ComponentState.run = orig_cs_run
             backends.backendGeneratorMap.clear()
             backends.backendGeneratorMap.update(saved)
             try:
